@@ -149,4 +149,20 @@ Corollary ff_round_binary64 v : (bpow radix2 (-1022) <= Rabs v)%R ->
   round radix2 (FLT_exp (-1074) 53) ZnearestE v = round radix2 (FLX_exp 53) ZnearestE v.
 Proof. intros H. apply round_FLT_FLX. exact H. Qed.
 
-Print Assumptions round53_is_flocq_round.
+(* the four statements together, for Properties/C01.v (which does not import Flocq's notations) *)
+Definition ff_correctly_rounded : Prop :=
+  (forall M E, let '(m, e) := round53 M E in
+     round radix2 (FLX_exp 53) ZnearestE (F2R (Float radix2 M E)) = F2R (Float radix2 m e)) /\
+  (forall m1 e1 m2 e2 z, fl_add_r (FFin m1 e1) (FFin m2 e2) = Some z ->
+     ff_R z = round radix2 (FLX_exp 53) ZnearestE (ff_R (FFin m1 e1) + ff_R (FFin m2 e2))) /\
+  (forall m1 e1 m2 e2 z, fl_sub_r (FFin m1 e1) (FFin m2 e2) = Some z ->
+     ff_R z = round radix2 (FLX_exp 53) ZnearestE (ff_R (FFin m1 e1) - ff_R (FFin m2 e2))) /\
+  (forall m1 e1 m2 e2 z, fl_mul_r (FFin m1 e1) (FFin m2 e2) = Some z ->
+     ff_R z = round radix2 (FLX_exp 53) ZnearestE (ff_R (FFin m1 e1) * ff_R (FFin m2 e2))) /\
+  (forall z x, fl_of_int z = Some x -> ff_R x = round radix2 (FLX_exp 53) ZnearestE (IZR z)).
+
+Theorem ff_correctly_rounded_holds : ff_correctly_rounded.
+Proof.
+  split; [exact round53_is_flocq_round|]. split; [exact fl_add_r_flocq|]. split; [exact fl_sub_r_flocq|].
+  split; [exact fl_mul_r_flocq|exact fl_of_int_flocq].
+Qed.
